@@ -125,3 +125,4 @@ pub open spec fn fsrc(p: real, all: real) -> real { if all > 1real / 1000real { 
 // typed views (give type inference the element types of locals declared with `HashMap::new()`)
 pub open spec fn view_sv(m: HashMap<Service, Vec<f32>>) -> Map<Service, Vec<f32>> { m@ }
 pub open spec fn view_sf(m: HashMap<Service, f32>) -> Map<Service, f32> { m@ }
+pub open spec fn view_psf(m: HashMap<ProdSource, f32>) -> Map<ProdSource, f32> { m@ }
